@@ -292,12 +292,12 @@ func rulesC10(c *Ctx) {
 		c.mustContainCalls("C10.d", fn.Name, "objects.Application.UnSetQueue")
 		del, ins := false, false
 		for _, w := range p.FieldWrites(p.Field("scheduler.PartitionContext.applications")) {
-			if w.Fn == fn && w.Kind == "delete" {
+			if p.inFn(w.Fn, fn) && w.Kind == "delete" {
 				del = true
 			}
 		}
 		for _, w := range p.FieldWrites(p.Field("scheduler.PartitionContext.completedApplications")) {
-			if w.Fn == fn && w.Kind == "elem" {
+			if p.inFn(w.Fn, fn) && w.Kind == "elem" {
 				ins = true
 			}
 		}
@@ -497,14 +497,14 @@ func rulesC11(c *Ctx) {
 	if fn := c.MustFunc("C11.b", "objects.Queue.incRunningApps"); fn != nil {
 		del := false
 		for _, w := range p.FieldWrites(p.Field("objects.Queue.allocatingAcceptedApps")) {
-			if w.Fn == fn && w.Kind == "delete" && p.isParam(fn, w.Arg, 0) && p.Parent(p.Parent(w.Node)) == ast.Node(fn.Decl.Body) {
+			if p.inFn(w.Fn, fn) && w.Kind == "delete" && p.isParam(fn, w.Arg, 0) && p.Parent(p.Parent(w.Node)) == ast.Node(fn.Decl.Body) {
 				del = true
 			}
 		}
 		c.Check("C11.b", "a running app is no longer counted as allocating", fn.Decl, del, "incRunningApps no longer deletes the app from allocatingAcceptedApps (it would be counted twice)")
 		inc := false
 		for _, w := range p.FieldWrites(p.Field("objects.Queue.runningApps")) {
-			if w.Fn == fn && w.Kind == "incdec" && p.Parent(w.Node) == ast.Node(fn.Decl.Body) {
+			if p.inFn(w.Fn, fn) && w.Kind == "incdec" && p.Parent(w.Node) == ast.Node(fn.Decl.Body) {
 				inc = true
 			}
 		}
@@ -528,7 +528,7 @@ func rulesC11(c *Ctx) {
 		for _, fld := range []string{"applications", "appPriorities", "allocatingAcceptedApps"} {
 			ok := false
 			for _, w := range p.FieldWrites(p.Field("objects.Queue." + fld)) {
-				if w.Fn == fn && w.Kind == "delete" {
+				if p.inFn(w.Fn, fn) && w.Kind == "delete" {
 					ok = true
 				}
 			}
